@@ -28,7 +28,8 @@ type c12Driver struct{}
 
 func init() { drivers["c12"] = c12Driver{} }
 
-var c12Names = []string{"a.go", "b.go", "gen/a.go", "a_1.go", "a_2.go", "b_1.go", "k", "k_1", "x.txt", "gen/a_1.go"}
+// names are opaque strings to the file manager; the ones that are not in canonical path form alias no other name of the list
+var c12Names = []string{"a.go", "b.go", "gen/a.go", "a_1.go", "./c.go", "a_2.go", "b_1.go", "k", "gen//d.go", "k_1", "x.txt", "gen/a_1.go", "y/../e.go", "./gen-go/f.go"}
 var c12Points = []string{"p", "q", "imports", "$.x", "A_1", "", "my-hook", "kitex:handler"}
 
 func marker(p string) string { return "@@thriftgo_insertion_point(" + p + ")" }
@@ -118,6 +119,7 @@ func (c12Driver) Gen(seed uint64, tier string) *simrt.Spec {
 		}
 		w.Feeds = append(w.Feeds, fd)
 	}
+	w.Twice = r.Chance(1, 5)
 	sp.Driver, _ = json.Marshal(w)
 	return sp
 }
@@ -132,9 +134,10 @@ func (c12Driver) Run(spec *simrt.Spec, agg *Agg, keep bool) *Outcome {
 	var feedErr error
 	errAt := -1
 	res := w.Run(func() {
-		fm := generator.NewFileManager(backend.DummyLogFunc())
+		// what the parties hand in: built once; a party that keeps its objects hands the same ones
+		// in again in a later generation (work.Twice), and they must still say what they said
+		all := make([][]*plugin.Generated, len(work.Feeds))
 		for fi, fd := range work.Feeds {
-			var items []*plugin.Generated
 			for i := range fd.Items {
 				it := &fd.Items[i]
 				g := &plugin.Generated{Content: it.Content}
@@ -146,14 +149,23 @@ func (c12Driver) Run(spec *simrt.Spec, agg *Agg, keep bool) *Outcome {
 					ip := it.IP
 					g.InsertionPoint = &ip
 				}
-				items = append(items, g)
-			}
-			if err := fm.Feed(fd.Src, items); err != nil {
-				feedErr, errAt = err, fi
-				return
+				all[fi] = append(all[fi], g)
 			}
 		}
-		resp = fm.BuildResponse()
+		gens := 1
+		if work.Twice {
+			gens = 2
+		}
+		for gen := 0; gen < gens; gen++ {
+			fm := generator.NewFileManager(backend.DummyLogFunc())
+			for fi, fd := range work.Feeds {
+				if err := fm.Feed(fd.Src, all[fi]); err != nil {
+					feedErr, errAt = err, fi
+					return
+				}
+			}
+			resp = fm.BuildResponse()
+		}
 	})
 	agg.merge(res)
 	o.LogHash, o.SchedFP, o.Branching = res.LogHash, res.SchedFP, res.Branching
